@@ -141,6 +141,7 @@ func init() {
 			{Name: "records", TShards: 8, Run: c04Records},
 			{Name: "files", TShards: 2, Run: c04Files},
 			{Name: "refuse", Run: c04Refuse},
+			{Name: "long", TShards: 4, Run: c04Long},
 		},
 	})
 }
@@ -228,4 +229,43 @@ func c04Refuse(c *Ctx) {
 		})
 	}
 	c.Exhaustive("refuse: N in {MinInt,-12,-1,0,1,2,13,14,100,MaxInt}")
+}
+
+// c04Long: lines longer than the usual I/O buffers (long names, many blocks).
+func c04Long(c *Ctx) {
+	n := c.N(120, 3000)
+	for i := 0; i < n; i++ {
+		c.Case(int64(i), func(k *K) {
+			r := k.Rand()
+			nf := 4 + r.IntN(9)
+			nr := 1 + r.IntN(3)
+			long := r.IntN(nr)
+			var text bytes.Buffer
+			var want []item
+			for j := 0; j < nr; j++ {
+				b := genBED(r, nf)
+				if j == long {
+					if nf == 12 && r.IntN(2) == 0 {
+						cnt := 700 + r.IntN(3000)
+						b.BlockCount, b.BlockSizes, b.BlockStarts = cnt, randInts(r, cnt), randInts(r, cnt)
+					} else if r.IntN(3) == 0 {
+						b.Chrom = "c" + string(longText(r, longSize(r), nil))
+					} else {
+						b.Name = string(longText(r, longSize(r), nil))
+					}
+				}
+				text.Write(bedWrite(k, b))
+				want = append(want, item{Key: bedKey(bedExpected(b))})
+			}
+			k.Input("N", nf)
+			k.Input("text", func() string { return describeText(text.Bytes()) })
+			got, over := collect(codecByName("bed").seq(bytes.NewReader(text.Bytes())), nr+3)
+			if over || !sameTrace(got, want) {
+				k.Failf("long-roundtrip", "file with a long line (N=%d) decoded differently:\n got  %.1500s\n want %.1500s", nf, traceString(got), traceString(want))
+			}
+			k.Count("long_line_files", 1)
+			k.Count("records_roundtripped", int64(nr))
+			k.Nontrivial(text.Bytes())
+		})
+	}
 }
